@@ -598,39 +598,6 @@ func scaleMatrix(m map[string]map[string]int, k int) map[string]map[string]int {
 	return out
 }
 
-func matrixHasDotted(m map[string]map[string]int) bool {
-	for a, row := range m {
-		if strings.Contains(a, ".") {
-			return true
-		}
-		for b := range row {
-			if strings.Contains(b, ".") {
-				return true
-			}
-		}
-	}
-	return false
-}
-
-func dropDotted(m map[string]map[string]int) map[string]map[string]int {
-	out := map[string]map[string]int{}
-	for a, row := range m {
-		if strings.Contains(a, ".") {
-			continue
-		}
-		for b, n := range row {
-			if strings.Contains(b, ".") {
-				continue
-			}
-			if out[a] == nil {
-				out[a] = map[string]int{}
-			}
-			out[a][b] = n
-		}
-	}
-	return out
-}
-
 func checkDepGraph(c *sut.Client, cs *Case, f *forestInfo, env *runEnv, o *rec) error {
 	se := fmt.Sprint(env.ws)
 	ee := fmt.Sprint(env.we)
@@ -698,7 +665,9 @@ func checkDepGraph(c *sut.Client, cs *Case, f *forestInfo, env *runEnv, o *rec) 
 		return fmt.Errorf("aggregated dependency graph answered %d: %s", hr.Status, clip(hr.Body))
 	}
 	var raw map[string]interface{}
-	if err := decodeJSON(hr.Body, &raw); err != nil {
+	if strings.TrimSpace(string(hr.Body)) == "no dependencies graphs have been generated" {
+		raw = map[string]interface{}{} // nothing shown
+	} else if err := decodeJSON(hr.Body, &raw); err != nil {
 		return fmt.Errorf("aggregated dependency graph: undecodable answer (%v) after storing %s: %s", err, matrixString(want), clip(hr.Body))
 	}
 	got := map[string]map[string]int{}
@@ -721,16 +690,64 @@ func checkDepGraph(c *sut.Client, cs *Case, f *forestInfo, env *runEnv, o *rec) 
 		}
 	}
 	wantAgg := scaleMatrix(want, cs.DepRounds)
-	if matrixHasDotted(want) && pt.KnownFindingOpen("C12-depgraph-dotted-service") {
-		// known finding: the stored graph is flattened with '.' as the separator and split again on
-		// '.', so every pair with a dotted service name is dropped from the aggregated view.
-		// Exactly those pairs are excluded; the remaining pairs are still compared.
-		o.Known("C12-depgraph-dotted-service")
-		wantAgg = dropDotted(wantAgg)
+	// Known findings on the stored view: the graph is stored as a nested object that ingestion
+	// flattens to columns named parent + "." + child (just the child's name when the parent has none),
+	// and the aggregated view splits the column names on '.' and keeps those with exactly two parts.
+	// Pairs with a dotted service name (C12-depgraph-dotted-service) or a nameless parent
+	// (C12-depgraph-nameless-parent) therefore vanish — or, for a nameless parent with a child such
+	// as "db.primary", re-appear as the invented pair db→primary. Exactly these pairs are taken
+	// out of the comparison: `clean` must be shown with its exact counts, and nothing else may be
+	// shown except what such a pair can turn into (`extra`).
+	dottedOpen := pt.KnownFindingOpen("C12-depgraph-dotted-service")
+	namelessOpen := pt.KnownFindingOpen("C12-depgraph-nameless-parent")
+	clean := map[string]map[string]int{}
+	extra := map[string]map[string]int{}
+	add := func(m map[string]map[string]int, a, b string, n int) {
+		if m[a] == nil {
+			m[a] = map[string]int{}
+		}
+		m[a][b] += n
 	}
-	if !matrixEqual(got, wantAgg) {
-		return fmt.Errorf("aggregated dependency graph after %d stored graph(s) of %s: got %s, want %s", cs.DepRounds, matrixString(want),
-			matrixString(got), matrixString(wantAgg))
+	for a, row := range wantAgg {
+		for b, n := range row {
+			dotted := strings.Contains(a, ".") || strings.Contains(b, ".")
+			switch {
+			case a == "" && namelessOpen, dotted && dottedOpen:
+				if a == "" {
+					o.Known("C12-depgraph-nameless-parent")
+				}
+				if dotted {
+					o.Known("C12-depgraph-dotted-service")
+				}
+				key := a + "." + b
+				if a == "" {
+					key = b
+				}
+				if parts := strings.Split(key, "."); len(parts) == 2 {
+					add(extra, parts[0], parts[1], n)
+				}
+			default:
+				add(clean, a, b, n)
+			}
+		}
+	}
+	bad := func() error {
+		return fmt.Errorf("aggregated dependency graph after %d stored graph(s) of %s: got %s, want %s (tolerated artefacts of the known storage findings: %s)",
+			cs.DepRounds, matrixString(want), matrixString(got), matrixString(clean), matrixString(extra))
+	}
+	for a, row := range clean {
+		for b, n := range row {
+			if g := got[a][b]; g < n || g > n+extra[a][b] {
+				return bad()
+			}
+		}
+	}
+	for a, row := range got {
+		for b, g := range row {
+			if g > clean[a][b]+extra[a][b] {
+				return bad()
+			}
+		}
 	}
 	return nil
 }
@@ -894,6 +911,23 @@ func classify(cs *Case, f *forestInfo, o *pt.Obs) {
 	for _, s := range cs.Services {
 		if strings.Contains(s, ".") {
 			o.Class("dotted_service_name")
+		}
+	}
+	if nl := cs.namelessIdx(); nl >= 0 && usedSvc[nl] {
+		o.Class("resource_without_service_name")
+		// a nameless resource that follows a named one inside one export request
+		pos := 0
+		for _, b := range cs.Batches {
+			named := false
+			for _, s := range cs.Spans[pos : pos+b] {
+				if s.Svc != nl {
+					named = true
+				} else if named {
+					o.Class("nameless_resource_after_named_in_request")
+					named = false
+				}
+			}
+			pos += b
 		}
 	}
 	if len(f.Order) > 50 {
